@@ -10,12 +10,12 @@ import math
 import numpy as np
 
 from ..base import Result
-from ..gen import dom_vec
-from ..metrics_table import EXTREME_SCALES, NAMES, SQRT_FORMS, T, reference
+from ..gen import dom_vec, int_vec
+from ..metrics_table import EXTREME_SCALES, NAMES, NEAR_DUPLICATE_ACCURATE, SQRT_FORMS, T, reference
 
 ID = "C06"
 RULE = ("Per case one (metric, length, input-class, memory-layout) cell: vectors drawn from the metric's domain "
-        "(lengths 1,2,3,4,5,8,17,64 and, for 4% of cases, 200 / 784; classes plain/zero-containing/integer/large), contiguous, strided-view or "
+        "(lengths 1,2,3,4,5,8,17,64, for 4% of cases 200 / 784, for 0.5% 1024 / 2048; int32/int64 arrays of integer-valued vectors; near-duplicate pairs for the metrics of NEAR_DUPLICATE_ACCURATE; classes plain/zero-containing/integer/large), contiguous, strided-view or "
         "read-only arrays; value compared with a 60-digit Decimal closed form within 1e-9*|ref|+1e-10*sum|terms|+1e-12. "
         "Registry cases: every candidate identifier x every model class: accepted <=> in registry, distance_fn is the "
         "registry entry. Non-trivial: length>=2 and x!=y; distinct = distinct (metric, vectors) hash.")
@@ -29,7 +29,7 @@ BUDGET = {
     "quick": {"cases": 40000, "seconds": 90, "shards": 8},
     "thorough": {"cases": 800000, "seconds": 900, "shards": 16},
 }
-REQUIRED_OBS = ["extreme_scale_cases", "value_compared", "registry_accept_checked", "registry_reject_checked", "layout:strided", "layout:readonly"]
+REQUIRED_OBS = ["integer_dtype_cases", "near_duplicate_cases", "length>=1024_cases", "extreme_scale_cases", "value_compared", "registry_accept_checked", "registry_reject_checked", "layout:strided", "layout:readonly"]
 MIN_NONTRIVIAL = 500
 LENGTHS = [1, 2, 3, 4, 5, 8, 17, 64]
 MODELS = ["SupervisedOPF", "SemiSupervisedOPF", "KNNSupervisedOPF", "UnsupervisedOPF"]
@@ -54,10 +54,33 @@ def generate(rng, tier, idx):
         x = (np.abs(rng.normal(size=n)) + 0.1 if kind in ("P", "N") else rng.normal(size=n)) * scale
         y = (np.abs(rng.normal(size=n)) + 0.1 if kind in ("P", "N") else rng.normal(size=n)) * scale
         zeros = False
-    return {"metric": name, "x": x.tolist(), "y": y.tolist(), "layout": layout, "zeros": zeros, "scale": scale}
+    dtype, neardup = "f64", False
+    r = rng.random()
+    if scale == 1.0 and kind != "Q" and r < 0.12:
+        # integer-valued vectors handed over as int32 / int64 arrays (zeros allowed where the EPSILON shift applies)
+        dtype = "i32" if rng.random() < 0.5 else "i64"
+        n = int(rng.choice([1, 2, 3, 5, 8, 17]))
+        x, y = int_vec(rng, kind, n, bool(T[name][3])), int_vec(rng, kind, n, bool(T[name][3]))
+        zeros = bool((x == 0).any() or (y == 0).any())
+        layout = "contig"
+    elif scale == 1.0 and r < 0.16 and name in NEAR_DUPLICATE_ACCURATE:
+        neardup = True                      # y = x * (1 +- 1e-6): judged with a RELATIVE tolerance only
+        n = int(rng.choice([1, 2, 3, 5, 8]))
+        x = dom_vec(rng, kind, n) if kind != "R" else rng.normal(size=n) * 3
+        x = np.where(np.abs(x) < 1e-3, 1.0, x)
+        y = x * (1 + rng.uniform(-1e-6, 1e-6, size=n))
+        zeros = False
+    elif scale == 1.0 and r < 0.165:
+        n = int(rng.choice([1024, 2048]))   # block-wise summation code paths (multiples of a chunk size)
+        x, y = dom_vec(rng, kind, n), dom_vec(rng, kind, n)
+        zeros = False
+    return {"metric": name, "x": [float(v) for v in x], "y": [float(v) for v in y], "layout": layout, "zeros": zeros, "scale": scale,
+            "dtype": dtype, "neardup": neardup}
 
 
-def _layout(v, layout):
+def _layout(v, layout, dtype="f64"):
+    if dtype in ("i32", "i64"):
+        return np.array([int(t) for t in v], dtype=np.int32 if dtype == "i32" else np.int64)
     a = np.array(v, dtype=float)
     if layout == "strided":
         b = np.empty(2 * len(a), dtype=float)
@@ -71,6 +94,9 @@ def _layout(v, layout):
 
 def check(case):
     res = Result()
+    if "boundscheck_pass" in case:
+        out = extra("thorough", 0, 0, 1)
+        return out[0][1] if out else res
     if case.get("registry"):
         return _check_registry(case, res)
     from opfython.math.distance import DISTANCES
@@ -83,7 +109,7 @@ def check(case):
     ref, mag = reference(name, x, y)
     if not (math.isfinite(ref) and math.isfinite(mag)):
         return res.reject("reference-not-finite")
-    ax, ay = _layout(x, case["layout"]), _layout(y, case["layout"])
+    ax, ay = _layout(x, case["layout"], case.get("dtype", "f64")), _layout(y, case["layout"], case.get("dtype", "f64"))
     try:
         got = float(DISTANCES[name](ax, ay))
     except Exception as ex:
@@ -92,7 +118,12 @@ def check(case):
         return res
     res.see("value_compared")
     res.see("layout:" + case["layout"])
-    if name in SQRT_FORMS:
+    if case.get("neardup"):
+        g2, r2 = (got * got, ref * ref) if name in SQRT_FORMS else (got, ref)
+        tol = 1e-6 * abs(r2) + 1e-300
+        bad = not abs(g2 - r2) <= tol
+        res.see("near_duplicate_cases")
+    elif name in SQRT_FORMS:
         # value = sqrt(radicand): rounding of the radicand is amplified without bound near 0, so the comparison is made
         # on the radicands (got^2 vs ref^2) with the magnitude of the radicand's terms
         tol = 1e-9 * ref * ref + 1e-10 * mag * mag + (1e-12 if case.get("scale", 1.0) == 1.0 else 1e-300)
@@ -105,7 +136,11 @@ def check(case):
     res.nontrivial = len(x) >= 2 and x != y
     if case.get("scale", 1.0) != 1.0:
         res.see("extreme_scale_cases")
-    cls = ("scale%g" % case["scale"]) if case.get("scale", 1.0) != 1.0 else "zeros" if case.get("zeros") else ("neg" if min(min(x), min(y)) < 0 else "pos")
+    if case.get("dtype", "f64") != "f64":
+        res.see("integer_dtype_cases")
+    if len(x) >= 1024:
+        res.see("length>=1024_cases")
+    cls = case["dtype"] if case.get("dtype", "f64") != "f64" else "neardup" if case.get("neardup") else ("scale%g" % case["scale"]) if case.get("scale", 1.0) != 1.0 else "zeros" if case.get("zeros") else ("neg" if min(min(x), min(y)) < 0 else "pos")
     res.cell(name, "len" + str(len(x)), cls, case["layout"])
     return res
 
